@@ -616,6 +616,24 @@ def gen_foreign_put(rng):
 
 
 # ---------------------------------------------------------------------------------------------------------
+PREEMPT_BODIES = ["L0:wc0=1 ws0.0", "L0:wc0=2 ws0.0 ws0.1", "L0:wc0=1 ws0.0 ws0.1;H0c1:wp0", "L0:wc0=2 ws0.0 ws0.1 ws0.2;H0c2:wp0",
+                  "L0:wc0=1 ws0.0;H0w0:wS0.0.1", "L0:wc0=2 ws0.0 tr0+1;H0t0:ws0.1 ws0.2", "L0:wc0=1 ws0.0 wp0",
+                  "L0:wc0=2 ws0.0 ws0.1;H0c0:ws0.2;H0c2:wp0"]
+
+
+def gen_preempt(rng):
+    """single-preemption sweep: one thread (a pool thread, or the owner) runs for k yield points, then the baton goes to one
+    other thread, which -- the schedule being exhausted -- runs until it blocks, and so on (pick() of mt.c keeps the running
+    thread while it is runnable).  With `Xkickyield` there is a yield point right AFTER a cross-thread kick has taken
+    effect, so "the woken owner runs its whole event pass between two statements of the poster" is a schedule (seed C12_9:
+    the owner looks at the done list, unlocked, between the worker's post and its list insertion)."""
+    body = rng.choice(PREEMPT_BODIES)
+    first = rng.choice("1112")
+    k = rng.randint(1, 70)
+    z = rng.choice(["", "", "0" * rng.randint(1, 30)]) + first * k + rng.choice(["0", "0", "02", "01", "20"])
+    return "Bet;M%d;Xkickyield;Z%s;%s" % (rng.choice([40, 60]), z, body)
+
+
 def log_features(log):
     """what happened in a log, for the non-triviality rules and the distribution report"""
     f = {"workers": 0, "switch_in_cs": False, "cont": False, "idle_exit": False, "rearm": False, "kick_idle": False,
@@ -922,7 +940,7 @@ class C12(_WorkCheck):
         q = ctx.tier == "quick"
         return [(gen_burst, 230 if q else 12000), (gen_cont, 110 if q else 6000), (gen_needed, 120 if q else 6000),
                 (gen_idle_race, 140 if q else 8000), (gen_local, 80 if q else 4000), (gen_put_at, 40 if q else 2000),
-                (gen_foreign, 100 if q else 5000), (gen_foreign_put, 30 if q else 1500)]
+                (gen_foreign, 100 if q else 5000), (gen_foreign_put, 30 if q else 1500), (gen_preempt, 260 if q else 8000)]
 
     def nontrivial(self, case, log):
         f = log_features(log)
@@ -1032,7 +1050,8 @@ class C13(_WorkCheck):
             return gen_put_at(rng, place=PUT_PLACES[rng.randrange(len(PUT_PLACES))])
 
         return [(put_sys, 330 if q else 15000), (gen_helpers, 130 if q else 6000), (burst_put, 130 if q else 6000),
-                (gen_cont, 60 if q else 3000), (gen_idle_race, 50 if q else 2000), (gen_foreign_put, 60 if q else 3000)]
+                (gen_cont, 60 if q else 3000), (gen_idle_race, 50 if q else 2000), (gen_foreign_put, 60 if q else 3000),
+                (gen_preempt, 120 if q else 4000)]
 
     def nontrivial(self, case, log):
         f = log_features(log)
